@@ -637,6 +637,51 @@ func (f *Facts) rangeOf(e string) (lo, hi int64, ne []int64) {
 	return
 }
 
+// LowerBound returns the least value the facts allow for e (constants only;
+// != exclusions at the boundary are stepped over). Snapshot marks are ignored.
+func (f *Facts) LowerBound(e string) int64 {
+	lo := int64(minI)
+	var ne []int64
+	for _, a := range f.m {
+		l, r := Plain(a.L), Plain(a.R)
+		if l == e {
+			if c, ok := parseInt(r); ok {
+				switch a.Op {
+				case "==":
+					if c > lo {
+						lo = c
+					}
+				case "!=":
+					ne = append(ne, c)
+				}
+			}
+		} else if r == e {
+			if c, ok := parseInt(l); ok {
+				switch a.Op {
+				case "<":
+					if c+1 > lo {
+						lo = c + 1
+					}
+				case "<=":
+					if c > lo {
+						lo = c
+					}
+				}
+			}
+		}
+	}
+	for changed := true; changed; {
+		changed = false
+		for _, n := range ne {
+			if n == lo {
+				lo++
+				changed = true
+			}
+		}
+	}
+	return lo
+}
+
 func isUnsignedExpr(e string) bool {
 	// conservative: lengths and explicit unsigned conversions only
 	return strings.HasPrefix(e, "len(") || strings.HasPrefix(e, "uint")
